@@ -475,7 +475,11 @@ def run(ctx):
         "utf8->string! offsets / copies, list/vector constructors), 7 predicates + hash values per pair vs the spec (same abstract value) and the "
         "extracted hash model; outer B: histories (quick <= 120 ops, some 500; key universes with equivalent-but-distinct keys; set/delete/update/copy) "
         "on 5 kinds of (srfi 69) tables, after every op size/bucket count/alist order/all lookups vs the extracted table model and the extracted "
-        "association-list spec; (srfi 125) histories vs the spec.  non-trivial = pair with a heap object / history with >= 1 regrow; distinct by canonical input")
+        "association-list spec; (srfi 125) histories vs the spec; a copy keeps BOTH tables, followed by set!/update!/delete of present keys on either, both dumped after every op.  "
+        "graphs: rooted graphs with sharing and cycles (templates + random) built node by node in Scheme from the description the extracted model gets: a bisimilar "
+        "variant and every single-position mutant (car/cdr, each vector slot, length, leaf bytes, one-sided sharing), DAGs with 2^16 unfolding, 20000-element lists; "
+        "(scheme base) equal? both orders + equal?/bounded vs bisim_dec (SPEC) and vs the regenerated equiv?.  "
+        "non-trivial = pair with a heap object / history with >= 1 regrow / graph case answered by equiv.scm (bounded pass gave up); distinct by canonical input")
     # (G)
     d = ctx.build("default")
     from gen import c15_consts, c15_equiv
@@ -507,7 +511,7 @@ def run(ctx):
     outer_cycles(ctx, d, 60 if not T else 2000)
     graphs(ctx, d, exe, C, *((2, 40, [20000]) if not T else (12, 1500, [10001, 20000, 50000])))
     t2 = time.time()
-    histories(ctx, d, exe, C, (170, 10) if not T else (2200, 120))
+    histories(ctx, d, exe, C, (100, 8) if not T else (1100, 60))
     ctx.note("wall: inner %.0fs, outer pairs+cycles %.0fs, histories %.0fs" % (t1 - t0, t2 - t1, time.time() - t2))
     for e in shape_errs:
         ctx.broken("source-shape", e)
@@ -522,7 +526,8 @@ def run(ctx):
             ctx.note("coqchk: Properties_C15 closure re-checked, axioms <none>")
         else:
             ctx.broken("coqchk", "coqchk does not accept the compiled closure of Properties_C15: %s" % (r.stdout + r.stderr)[-800:])
-    ctx.assume("objects are finite trees: sharing and cycles are outside the model (the cycle-safe path of lib/chibi/equiv.scm is exercised only through (scheme base) equal? on acyclic data)")
+    ctx.assume("the bounded C pass on data with sharing / beyond its limits is not modelled: the theorems about (scheme base) equal? on graphs assume its definite answers are sound (bounded_sound), which is checked on every generated graph case; hash of cyclic data is only tested")
+    ctx.trust("gen/c15_equiv.py: get-equivs, merge! and the result line of lib/chibi/equiv.scm are modelled by hand behind an exact-text check; the inner equiv? is translated")
     ctx.assume("hash-by-identity of heap objects (addresses) is not modelled: eq?-tables with heap keys are compared with the spec map only, not with the table model's layout")
     ctx.assume("the comparison/hash procedures given to make-hash-table do not mutate the table and are total; a user hash function is only required to respect the equivalence")
     ctx.assume("(sexp_sint_t) of a double is modelled as x86-64 cvttsd2si (C leaves out-of-range conversions undefined)")
@@ -978,6 +983,15 @@ def g_mutants(nodes, copied, rng, uniq):
             if l[k] != n[k]:
                 out[y] = tuple(l)
                 res.append(("redirect slot %d of n%d" % (k - 1, y), out))
+            # sharing on one side only: the slot now refers to ANOTHER copied node of the same kind
+            k = rng.choice([1, 2])
+            same = [z for z in copied if z != n[k] and nodes[z][0] == nodes[n[k]][0] and nodes[z][0] != "L"]
+            if same:
+                out = list(nodes)
+                l = list(n)
+                l[k] = rng.choice(same)
+                out[y] = tuple(l)
+                res.append(("slot %d of n%d shares another node of the same kind" % (k - 1, y), out))
         elif n[0] == "V":
             for k in range(len(n[1])):
                 out = list(nodes)
@@ -990,6 +1004,14 @@ def g_mutants(nodes, copied, rng, uniq):
                 out = list(nodes)
                 out[y] = ("V", list(n[1][:-1]))
                 res.append(("drop last slot of n%d" % y, out))
+                k = rng.randrange(len(n[1]))
+                same = [z for z in copied if z != n[1][k] and nodes[z][0] == nodes[n[1][k]][0] and nodes[z][0] != "L"]
+                if same:
+                    out = list(nodes)
+                    sl = list(n[1])
+                    sl[k] = rng.choice(same)
+                    out[y] = ("V", sl)
+                    res.append(("slot %d of vector n%d shares another node of the same kind" % (k, y), out))
             out = list(nodes)
             out[y] = ("V", list(n[1]) + [fresh(out)])
             res.append(("extra slot in n%d" % y, out))
